@@ -95,6 +95,65 @@ def convs(rng, tier):
     return out
 
 
+def burst_convs(rng, tier):
+    """many UPDATEs in one write to a slow handler, the connection ending right behind them: every one is still delivered"""
+    out = []
+    for k in range(4 if tier == "quick" else 24):
+        direction = rng.choice(["in", "out"])
+        c = S.Conv(2000 + k, direction=direction, tag="burst-then-%s.slow-handler.%s" % ("fin" if k % 2 == 0 else "bad-header", direction))
+        c.scenario_extra = {"handler_delay_ms": rng.choice([10, 25, 40])}
+        c.send(S.frame(S.OPEN, S.open_body())).send(S.frame(S.KEEPALIVE))
+        msgs = []
+        for i in range(rng.randint(12, 30)):
+            msgs.append(S.frame(S.UPDATE, bytes([i]) * rng.choice([4, 4, 30, 300])))
+            if rng.random() < 0.2:
+                msgs.append(S.frame(S.KEEPALIVE))
+        tail = b"" if k % 2 == 0 else S.frame(2, b"", length=18)       # a header fault right behind the burst
+        c.send(b"".join(msgs) + tail)
+        c.eof = 1
+        c.meta = {"bodies": [m[19:] for m in msgs if m[18] == S.UPDATE], "notif": None}
+        c.judge = judge
+        out.append(c)
+    return out
+
+
+class SlowHandler:
+    """a handler call that outlasts the hold time while the remote keeps sending KEEPALIVEs: the session stays up and the
+    next UPDATE is delivered"""
+    no_model = True
+
+    def __init__(self, sid):
+        self.sid = sid
+        self.tag = "handler-slower-than-hold-time"
+        self.remote_id = 0x0A000002
+
+    def scenario(self):
+        ka = S.frame(S.KEEPALIVE).hex()
+        st = [["dial", "c1"], ["recv", "c1", 1, 1500], ["send", "c1", S.frame(S.OPEN, S.open_body(hold=3)).hex(), 0], ["send", "c1", ka, 0],
+              ["recv", "c1", 2, 1500], ["sleep", 20], ["send", "c1", S.frame(S.UPDATE, b"A" * 8).hex(), 0]]
+        for _ in range(4):
+            st += [["sleep", 900], ["send", "c1", ka, 0]]
+        st += [["sleep", 300], ["send", "c1", S.frame(S.UPDATE, b"B" * 8).hex(), 0], ["sleep", 300]]
+        return {"id": self.sid, "local_as": 65001, "remote_as": 65000, "local_id": 0x0A000001, "hold": 3, "passive": True,
+                "idle_hold_ms": 3000, "connect_retry_ms": 3000, "caps": [], "on_open": None, "handler": [], "est_writes": [],
+                "handler_delay_ms": 3300, "first_only": False, "steps": st}
+
+    def model_case(self):
+        return None
+
+    def check(self, r):
+        bad = []
+        c1 = next(c for c in r["conns"] if c["name"] == "c1")
+        t_close = min([a["at"] for a in r["api"] if a["name"] == "final-close"] + [10 ** 9])
+        early = [m for m in c1["msgs"] if m["t"] == 3 and m["at"] < t_close - 5]
+        if early:
+            bad.append("NOTIFICATION %s sent although the remote sent a KEEPALIVE every 0.9 s (hold time 3 s) while the handler was busy" % early[0]["b"][:4])
+        hs = [cb["arg"] for cb in r["cbs"] if cb["name"] == "Handler" and cb["ph"] == "enter"]
+        if ("42" * 8) not in hs:
+            bad.append("the UPDATE sent after the slow handler call was not delivered (handler calls: %d)" % len(hs))
+        return bad
+
+
 def judge(c, e, o, r):
     got = [x[1] for x in o["cbs"] if x[0] == "Handler"]
     want = c.meta["bodies"]
@@ -109,7 +168,12 @@ def judge(c, e, o, r):
 
 
 def sys_part(tier, rng, rep, replay):
-    cov = sysrun.run_convs(PID, convs(rng, tier), rep)
+    cov = sysrun.run_convs(PID, convs(rng, tier) + burst_convs(rng, tier), rep)
+    # (the expiry race is lost about every second time: several sessions)
+    slow = [SlowHandler(3000 + k) for k in range(6 if tier == "quick" else 16)]
+    cov2 = sysrun.run_convs(PID, slow, rep, extra_check=lambda c, e, o, r: c.check(r), par=16, confirm=4)
+    cov["evaluations"] = cov.get("evaluations", 0) + cov2["evaluations"]
+    cov["slow_handler_sessions"] = cov2["evaluations"]
     cov["rule"] = "established sessions receiving UPDATE/KEEPALIVE streams"
     return cov
 
